@@ -624,7 +624,7 @@ fn main() {
     if std::env::var("VERIF_SHOW_PANIC").is_err() { std::panic::set_hook(Box::new(|_| {})); }
     let backend = arg("--backend").unwrap_or("mem".into());
     let out = arg("--out").unwrap_or(format!("/verif/.cache/run/proto-{backend}"));
-    let mut run = Run::new(&out, "random histories of 3-4 real MDK clients (self-update and rename commits incl. concurrent ones on the same epoch, application messages, own-commit echo vs immediate merge, clear, duplicates, epoch-causal and unrestricted delivery, retention 0/1/2/5, few distinct wrapper timestamps to force ties), followed by re-offering every event to every member until nothing changes; every step's public-API fingerprint is compared with the extracted engine model; non-trivial = step executed after the first rollback of its history, or in the quiescence phase");
+    let mut run = Run::new(&out, "random histories of 3-4 real MDK clients, optionally a two-device user and one client that joins later through a welcome (self-update / rename / admin-grant / admin-revoke / remove_members / add_members commits incl. concurrent ones on one epoch, application messages incl. pre-set ids, forged rumor authors and future-dated rumors, leave proposals, own-commit echo vs immediate merge, clear, hostile wrapper events, commits built with OpenMLS directly by non-admins (removal, self-promotion, rename, identity change), duplicates, epoch-causal and unrestricted delivery, restarts on persistent storage incl. with a smaller retention, retention 0/1/2/5, few distinct wrapper timestamps to force ties); every fifth history starts with a scripted prefix (fork of depth 3-6, removal or leave of a two-device user, leaf re-use with a withheld forged message, admin change rolled back by a refused commit, restart with smaller retention); then every event is re-offered to every member until nothing changes; every step's public-API fingerprint is compared with the extracted engine model; non-trivial = step executed after the first rollback of its history, or in the quiescence phase");
     std::fs::create_dir_all("/verif/.cache/tmp").unwrap();
     let mut r = Rng::from_env();
     let lines = arg("--cases").map(|f| std::fs::read_to_string(f).unwrap().lines().filter(|l| !l.is_empty() && !l.starts_with('#')).map(|l| l.to_string()).collect::<Vec<_>>());
